@@ -44,7 +44,7 @@ static void threads_gen(Rng &r, Plan &p, Tier tier, uint64_t index)
 	for (int i = 0; i < total; i++) {
 		Step s;
 		int thr = (int)r.below((uint64_t)nt);
-		int key = (int)r.pick(std::vector<int>{0, 0, 1, 1, 2, 3, 3, 4, 5});
+		int key = (int)r.pick(std::vector<int>{0, 0, 1, 1, 2, 3, 3, 4, 5, 6});
 		if (!produced.empty() && r.chance(1, 2)) {
 			s = Step("VERIFY");
 			// a token issued by any thread earlier in plan order (availability is a scheduler condition),
@@ -65,17 +65,40 @@ static void threads_gen(Rng &r, Plan &p, Tier tier, uint64_t index)
 		s.set("thread", thr);
 		s.set("key", key);
 		if (r.chance(1, 3))
-			s.set("bykid", 1); // key resolved by kid in the shared keyring from inside the thread's callback
+			s.set("bykid", r.chance(1, 3) ? 2 : 1); // key resolved in the shared keyring from inside the thread's callback: 1 by kid, 2 by position
 		s.uid = uid++;
 		p.steps.push_back(s);
+		// now and then a forger and its victim: one thread verifies a genuine HS token while another verifies a token
+		// made of its own header and payload and the genuine token's MAC (never valid; a verifier that computes its
+		// MAC in a place another thread can write to accepts it)
+		if (nt >= 2 && r.chance(1, 10)) {
+			int64_t pair = (int64_t)uid;
+			int t1 = (int)r.below((uint64_t)nt), t2 = (t1 + 1 + (int)r.below((uint64_t)nt - 1)) % nt;
+			Step a("VERIFY"), b("VERIFY");
+			a.set("src", -1);
+			b.set("src", -1);
+			a.set("key", 0);
+			b.set("key", 0);
+			a.set("thread", t1);
+			b.set("thread", t2);
+			a.set("splice", pair);
+			b.set("victim", pair);
+			if (r.chance(1, 2))
+				std::swap(a, b);
+			a.uid = uid++;
+			p.steps.push_back(a);
+			b.uid = uid++;
+			p.steps.push_back(b);
+		}
 	}
 }
 
 // ---------------------------------------------------------------- shared keyring
 struct SharedKeys {
-	KeyRef truth[6];
-	LoadedKey priv[6], pub[6];
-	int alg[6];
+	static const int NK = 7;
+	KeyRef truth[NK];
+	LoadedKey priv[NK], pub[NK];
+	int alg[NK];
 	jwk_set_t *ring_priv = nullptr, *ring_pub = nullptr; // all keys in one JWKS each, kid "k0".."k5"
 	void init(Ctx &ctx, uint64_t root)
 	{
@@ -93,6 +116,8 @@ struct SharedKeys {
 		alg[4] = JWT_ALG_RS256;
 		truth[5] = key_gen_ec("P-521");
 		alg[5] = JWT_ALG_ES512;
+		truth[6] = key_gen_ec("secp256k1"); // GnuTLS has no ES256K: every use fails there, the same way in every thread
+		alg[6] = JWT_ALG_ES256K;
 		json_t *dpriv = json_object(), *dpub = json_object(), *apriv = json_array(), *apub = json_array();
 		// eight keys nobody asks for in front: the keys in use sit at positions 9 to 14 of the shared rings
 		for (int i = 0; i < 8; i++) {
@@ -103,7 +128,7 @@ struct SharedKeys {
 			json_array_append_new(apriv, jwk_export_json(*f, o));
 			json_array_append_new(apub, jwk_export_json(*f, o));
 		}
-		for (int i = 0; i < 6; i++) {
+		for (int i = 0; i < NK; i++) {
 			JwkOpts o;
 			o.priv = true;
 			lib_load_key(ctx, jwk_export(*truth[i], o), priv[i]);
@@ -127,7 +152,7 @@ struct SharedKeys {
 	}
 	void fini()
 	{
-		for (int i = 0; i < 6; i++) {
+		for (int i = 0; i < NK; i++) {
 			lib_free_key(priv[i]);
 			lib_free_key(pub[i]);
 		}
@@ -190,13 +215,14 @@ struct KidCtx {
 	jwk_set_t *ring;
 	const char *kid;
 	int alg;
+	int index; // >= 0: look the key up by its position in the ring instead of by kid
 };
 
 static int kid_cb(jwt_t *jwt, jwt_config_t *config)
 {
 	(void)jwt;
 	KidCtx *k = (KidCtx *)config->ctx;
-	const jwk_item_t *it = jwks_find_bykid(k->ring, k->kid);
+	const jwk_item_t *it = k->index >= 0 ? jwks_item_get(k->ring, (size_t)k->index) : jwks_find_bykid(k->ring, k->kid);
 	if (!it)
 		return 1;
 	config->key = it;
@@ -207,7 +233,7 @@ static int kid_cb(jwt_t *jwt, jwt_config_t *config)
 static void do_op(RunCtx &rc, size_t idx)
 {
 	const Step &s = rc.plan->steps[idx];
-	int key = (int)s.I("key") % 6;
+	int key = (int)s.I("key") % SharedKeys::NK;
 	SharedKeys &K = *rc.keys;
 	OpOut &o = rc.out[idx];
 	sim_entropy_point(mix64(rc.plan->rng, s.uid));
@@ -219,7 +245,7 @@ static void do_op(RunCtx &rc, size_t idx)
 			return;
 		}
 		std::string kid = strf("k%d", key);
-		KidCtx kc{K.ring_priv, kid.c_str(), K.alg[key]};
+		KidCtx kc{K.ring_priv, kid.c_str(), K.alg[key], s.I("bykid") == 2 ? 8 + key : -1};
 		if (s.I("bykid"))
 			jwt_builder_setcb(b, kid_cb, &kc);
 		else
@@ -252,12 +278,26 @@ static void do_op(RunCtx &rc, size_t idx)
 		if (src >= 0 && (size_t)src < rc.pool.size()) {
 			std::lock_guard<std::mutex> g(rc.pool_mu);
 			tok = rc.pool[(size_t)src];
-			vkey = (int)rc.plan->steps[(size_t)src].I("key") % 6;
+			vkey = (int)rc.plan->steps[(size_t)src].I("key") % SharedKeys::NK;
 			if (s.I("claims") && idx % 2)
 				vkey = key; // sometimes the wrong key on purpose
 		} else {
 			const AlgInfo &a = ALGS[K.alg[key]];
 			ref_make_token(strf("{\"alg\":\"%s\"}", a.name), strf("{\"sub\":\"ref\",\"n\":%zu}", idx), K.truth[key].get(), &a, tok);
+		}
+		if (s.I("victim") || s.I("splice")) {
+			const AlgInfo &a = ALGS[K.alg[0]];
+			int64_t pair = s.I("victim") ? s.I("victim") : s.I("splice");
+			std::string genuine;
+			ref_make_token(strf("{\"alg\":\"%s\"}", a.name), strf("{\"sub\":\"victim\",\"n\":%lld}", (long long)pair), K.truth[0].get(), &a, genuine);
+			if (s.I("victim"))
+				tok = genuine;
+			else {
+				std::string own;
+				ref_make_token(strf("{\"alg\":\"%s\"}", a.name), strf("{\"sub\":\"forger\",\"admin\":true,\"n\":%lld}", (long long)pair), K.truth[0].get(), &a, own);
+				tok = own.substr(0, own.rfind('.') + 1) + genuine.substr(genuine.rfind('.') + 1);
+			}
+			vkey = 0;
 		}
 		if (s.I("damage") && tok.size() > 8)
 			tok[tok.size() - 5] = tok[tok.size() - 5] == 'A' ? 'B' : 'A';
@@ -269,7 +309,7 @@ static void do_op(RunCtx &rc, size_t idx)
 		}
 		std::string kid = strf("k%d", vkey);
 		bool vpriv = s.I("vpriv") != 0;
-		KidCtx kc{vpriv ? K.ring_priv : K.ring_pub, kid.c_str(), K.alg[vkey]};
+		KidCtx kc{vpriv ? K.ring_priv : K.ring_pub, kid.c_str(), K.alg[vkey], s.I("bykid") == 2 ? 8 + vkey : -1};
 		if (s.I("bykid"))
 			jwt_checker_setcb(c, kid_cb, &kc);
 		else
@@ -476,7 +516,7 @@ static void threads_exec(Ctx &ctx)
 
 	for (size_t i = 0; i < plan.steps.size(); i++) {
 		const Step &s = plan.steps[i];
-		int key = (int)s.I("key") % 6;
+		int key = (int)s.I("key") % SharedKeys::NK;
 		const AlgInfo &a = ALGS[K.alg[key]];
 		ctx.logf("op%zu T%lld %s key=%d seq=%d thr=%d", i, (long long)s.I("thread"), s.op.c_str(), key, seq.out[i].ret, thr.out[i].ret);
 		if (!thr.out[i].done) {
@@ -498,6 +538,12 @@ static void threads_exec(Ctx &ctx)
 				ctx.violation("C12", "deterministic-token-differs", strf("%s:under-threads", a.name),
 					      strf("op%zu: %s token differs between the interleaved and the one-after-another execution: %s vs %s", i, a.name, show(thr.out[i].token, 160).c_str(), show(seq.out[i].token, 160).c_str()));
 		}
+		// C01: a token that is invalid by construction (another token's MAC, a damaged signature) is accepted by nobody,
+		// whoever else is running
+		if (thr.out[i].done && s.op == "VERIFY" && thr.out[i].ret == 0 && (s.I("splice") || (s.I("damage") && seq.out[i].ret != 0)))
+			ctx.violation("C01", "accepted-without-valid-signature", strf("%s:under-threads:%s", a.name, s.I("splice") ? "spliced-mac" : "damaged"),
+				      strf("op%zu: a token that is invalid by construction (%s) was accepted while other threads were inside the library", i,
+					   s.I("splice") ? "own header and payload, MAC of the token another thread is verifying" : "one character of a valid token changed"));
 		if (thr.out[i].done && seq.out[i].ret == 0 && thr.out[i].ret != 0)
 			ctx.violation("C05", s.op == "GEN" ? "generate-failed" : "valid-token-rejected", strf("%s:under-threads", a.name),
 				      strf("op%zu (%s, %s) succeeds when the threads' calls are made one after another and fails (%d) under the interleaving", i, s.op.c_str(), a.name, thr.out[i].ret));
